@@ -13,6 +13,9 @@ import HcipyVerif.Model.Coronagraph
   `transformation_inverse` (`k` rows), `coeffs`, grid weights; answers the defects of the theorem
   hypotheses: `ok n=N k=K leftinv=max|T⁺T−I| adj=max|T⁺−μTᵀW|`
 * `pmodes ORDER [a] [x] [y]` → `ok nulls=max|perfectMat(mode)| scale=max|mode|` (hypothesis `NullsModes`)
+* `msalg N D SRE SIM ERE EIM L (RAWRE RAWIM WINRE WINIM FRE FIM BRE BIM NR (RRE RIM)*NR)*L` → the
+  multi-scale algebra at Gaussian rationals: `ok OUTRE OUTIM M0RE M0IM M1RE M1IM …` (`msForward`, `msMasks`)
+* `mstele N D [m] F B L ([S] [w])*L [E]` → `ok nested=0|1 equal=0|1 [msForward exactLevels] [idealForward]`
 * `papply [E]` → `ok [perfectMat T T⁺ c E] pin=powerW pout=powerW`
 -/
 namespace HcipyVerif.Driver.C09
@@ -88,6 +91,47 @@ def lyotOp (occ : Bool) (fre fim bre bim mre mim sre sim ere eim : String) : Str
     | _, _ => "bad-op"
   | _, _, _, _, _, _, _, _ => "bad-op"
 
+def pairs {α} : List α → List (α × α)
+  | a :: b :: t => (a, b) :: pairs t
+  | _ => []
+
+/-- levels of an `msalg` request -/
+def parseLevels (d n : Nat) : Nat → List String → Option (List (MSLevel CRat d n))
+  | 0, [] => some []
+  | 0, _ => none
+  | l + 1, rre :: rim :: wre :: wim :: fre :: fim :: bre :: bim :: nr :: rest => do
+    let rre ← parseRatList? rre
+    let rim ← parseRatList? rim
+    let wre ← parseRatList? wre
+    let wim ← parseRatList? wim
+    let fre ← parseRatLists? fre
+    let fim ← parseRatLists? fim
+    let bre ← parseRatLists? bre
+    let bim ← parseRatLists? bim
+    let nr ← parseNat? nr
+    if rre.length != d || rim.length != d || wre.length != d || wim.length != d || fre.length != d || fim.length != d ||
+       bre.length != n || bim.length != n || !rect fre n || !rect fim n || !rect bre d || !rect bim d ||
+       rest.length < 2 * nr then none else
+    let (rt, rest') := rest.splitAt (2 * nr)
+    let Rs ← (pairs rt).mapM fun (a, b) => do
+      let a ← parseRatLists? a
+      let b ← parseRatLists? b
+      if a.length != d || b.length != d || !rect a d || !rect b d then none else some (cmat a b d d)
+    let tail ← parseLevels d n l rest'
+    some ({ raw := cvec rre rim d, win := cvec wre wim d, R := Rs, F := cmat fre fim d n, B := cmat bre bim n d } :: tail)
+  | _, _ => none
+
+def parseSpecs (d : Nat) : Nat → List String → Option (List (Vector Bool d × Vec Rat d) × List String)
+  | 0, rest => some ([], rest)
+  | l + 1, s :: w :: rest => do
+    let s ← parseRatList? s
+    let w ← parseRatList? w
+    if s.length != d || w.length != d then none else
+    let sa := s.toArray
+    let (tail, rest') ← parseSpecs d l rest
+    some (((Vector.ofFn fun i : Fin d => sa.getD i.1 0 != 0), ofList w d) :: tail, rest')
+  | _, _ => none
+
 def step (st : St) : List String → St × String
   | ["reset"] => ({}, "ok")
   | ["count", o] =>
@@ -148,6 +192,45 @@ def step (st : St) : List String → St × String
       let out := perfectMat st.pT st.pTinv st.pc E
       (st, s!"ok {showRatList (toList out)} pin={showRat (powerW st.pw E)} pout={showRat (powerW st.pw out)}")
     | none => (st, "bad-op")
+  | "msalg" :: n :: d :: sre :: sim :: ere :: eim :: l :: rest =>
+    match parseNat? n, parseNat? d, parseRatList? ere, parseRatList? eim, parseNat? l with
+    | some n, some d, some ere, some eim, some l =>
+      if ere.length != n || eim.length != n then (st, "bad-op") else
+      match parseLevels d n l rest with
+      | none => (st, "bad-op")
+      | some ls =>
+        let E := cvec ere eim n
+        let stop : Option (Option (Vec CRat n)) :=
+          if sre == "-" && sim == "-" then some none else
+          match parseRatList? sre, parseRatList? sim with
+          | some a, some b => if a.length != n || b.length != n then none else some (some (cvec a b n))
+          | _, _ => none
+        match stop with
+        | none => (st, "bad-op")
+        | some stop =>
+          let out := msForward ls stop E
+          let ms := msMasks ls
+          (st, "ok " ++ showC out ++ String.join (ms.map fun M => " " ++ showC M))
+    | _, _, _, _, _ => (st, "bad-op")
+  | "mstele" :: n :: d :: m :: f :: b :: l :: rest =>
+    match parseNat? n, parseNat? d, parseRatList? m, parseRatLists? f, parseRatLists? b, parseNat? l with
+    | some n, some d, some m, some f, some b, some l =>
+      if m.length != d || f.length != d || b.length != n || !rect f n || !rect b d then (st, "bad-op") else
+      match parseSpecs d l rest with
+      | some (sps, [e]) =>
+        match parseRatList? e with
+        | some e =>
+          if e.length != n then (st, "bad-op") else
+          let mv := ofList m d
+          let F := rmat f d n
+          let B := rmat b n d
+          let E := ofList e n
+          let lhs := msForward (exactLevels mv F B sps) none E
+          let rhs := idealForward mv F B E
+          (st, s!"ok nested={showBool (nestedOK (onesVec Rat d) sps)} equal={showBool (toList lhs == toList rhs)} {showRatList (toList lhs)} {showRatList (toList rhs)}")
+        | none => (st, "bad-op")
+      | _ => (st, "bad-op")
+    | _, _, _, _, _, _ => (st, "bad-op")
   | ["lyot", fre, fim, bre, bim, mre, mim, sre, sim, ere, eim] =>
     (st, lyotOp false fre fim bre bim mre mim sre sim ere eim)
   | ["occulted", fre, fim, bre, bim, mre, mim, ere, eim] =>
